@@ -22,8 +22,10 @@ CLIENT_FUNCS = {"setError", "writeLoop", "readLoop", "sendErrConnack", "connectW
 
 def canon_sig(sig):
     """driver signature (<symptom>:<parked goroutines>) -> the signature used for known findings"""
-    if sig.startswith("unanswered:") and sig.endswith(":seterror-blocked-in-once-writing-disconnect"):
-        return "seterror-blocked-in-once-writing-disconnect"
+    if sig.startswith("unanswered:"):
+        for cause in ("seterror-blocked-in-once-writing-disconnect", "readloop-blocked-sending-to-in"):
+            if cause in sig.rsplit(":", 1)[-1].split("+"):
+                return cause
     if sig.startswith("c05:") or sig.startswith("no-close-after-protocol-error") or sig.startswith("unanswered"):
         return sig
     cause = sig.split(":", 1)[1] if ":" in sig else sig
@@ -245,24 +247,31 @@ def ce_to_scenario(ce, pk, sid):
         conns.append(spec)
     steps = []
     dead = [False] * n          # nothing consumes `in` any more (handshake failed / readHandle returned)
+    # a handshake that times out has consumed nothing: whatever the peer had sent before the timer fired is, for the broker,
+    # the same as sent afterwards -- the script waits out the 5 s timer right after the TCP connect
+    times_out = [any(st["hp"][str(10 * (k + 1) + 3)] == "timeout" for st in ce) for k in range(n)]
     for a, b in zip(ce, ce[1:]):
         for k in range(n):
-            sv = str(10 * (k + 1) + 3)
             if b["accepted"][k] != a["accepted"][k] and b["accepted"][k] == "yes":
                 steps.append({"op": "connect", "k": k + 1})
                 if not c["PeerReads"]:
                     conns[k]["smallbuf"] = True
                     steps.append({"op": "stall", "k": k + 1})
-            if b["hp"][sv] == "timeout" and a["hp"][sv] != "timeout":
-                steps.append({"op": "sleep", "ms": 5400})       # the 5 s CONNECT timer of connectWithTimeOut
-                dead[k] = True
+                if times_out[k]:
+                    steps.append({"op": "sleep", "ms": 5400})       # the 5 s CONNECT timer of connectWithTimeOut
+                    dead[k] = True
             if b["sent"][k] > a["sent"][k]:
                 kind = b["c2s"][k]
+                if not b["peerReading"][k] and kind in ("ping", "ok", "pub"):
+                    # towards a peer that does not read these only fill `out` and the socket in the model (capacity 1); the flood
+                    # does that for the real capacities, and a request would park readHandle in client.write before the next packet
+                    continue
                 st = {"op": "send", "k": k + 1, "kind": kind}
                 if dead[k]:
-                    st["n"] = amp
+                    # nothing consumes client.in: any packet is a filler, REAL_CAP/CapIn of them per packet of the model
+                    st = {"op": "send", "k": k + 1, "kind": "ping", "n": amp, "nowait": True, "stands_for": kind}
                 steps.append(st)
-                if kind == "connect" and not c["PeerReads"]:
+                if kind == "connect" and not c["PeerReads"] and not dead[k]:
                     steps.append({"op": "flood", "k": k + 1})      # what the model's CapSock/CapOut stand for
                 if kind in ("bad", "mal", "disc", "badconnect"):
                     dead[k] = True
@@ -279,7 +288,7 @@ def ce_to_scenario(ce, pk, sid):
         if b["n"] > a["n"]:
             kind = "terminate" if b["srvClosed"] != a["srvClosed"] else "publish"
             steps.append({"op": "api", "k": 1, "kind": kind})
-    # a peer that stalls must have something to stall on: the flood needs the subscription made by `connect`
+    steps.append({"op": "settle"})      # the model's end state is reached when the broker has digested all of this
     last = ce[-1]
     summary = {"pc": {k: v for k, v in last["pc"].items() if v != "Done"}, "live": last["live"], "once": last["once"],
                "closeCh": last["closeCh"], "srvClosed": last["srvClosed"], "inq": last["inq"], "outq": last["outq"],
